@@ -92,6 +92,19 @@ def _work(job):
         out["status"] = "crash"
         out["message"] = f"{type(e).__name__}: {e}\n{traceback.format_exc()}"
     out["time_s"] = round(time.time() - t0, 3)
+    # bounded native stand-in / replay (CPython, real code): never counted as proved
+    out["native"] = None
+    if kind == "function" and os.environ.get("VERIF_NO_NATIVE") != "1":
+        sch, contracts, specfuncs, lemmas, config, plan = _G["all"]
+        c = contracts.get(name)
+        if c is not None and c.flags.get("native", True):
+            from .replay import run_native
+            tier = os.environ.get("VERIF_TIER_EFFECTIVE", "quick")
+            n, budget = (400, 120) if tier == "thorough" else (80, 25)
+            bad = out["status"] != "ok" or any(o["status"] != "proved" for o in out["obligations"])
+            if bad:
+                n, budget = max(n, 300), max(budget, 60)
+            out["native"] = run_native(name, n=n, seed=int(os.environ.get("VERIF_SEED", "0") or 0), budget_s=budget)
     return out
 
 
@@ -133,6 +146,7 @@ def run_property(pid, tier="quick", seed=0, update_ledger=False, verbose=False):
     jobs += [("lemma", q, p.get("timeout_ms", 10000)) for q in p.get("lemmas", [])]
     if tier == "thorough":
         jobs += [("function", q, 30000) for q in p.get("thorough_functions", [])]
+    os.environ["VERIF_TIER_EFFECTIVE"] = tier
     nproc = min(16, max(1, len(jobs)))
     if len(jobs) > 1:
         with mp.Pool(nproc, initializer=_init) as pool:
@@ -153,6 +167,7 @@ def run_property(pid, tier="quick", seed=0, update_ledger=False, verbose=False):
     known_ob = {(k["function"], k["obligation"]): k for k in known if k.get("status") == "known"}
 
     exitcode = 0
+    natives = {}
     lines = []
     violations = []
     undecided = []
@@ -172,10 +187,23 @@ def run_property(pid, tier="quick", seed=0, update_ledger=False, verbose=False):
                       "obligations": len(r["obligations"])})
         for a in r["assumed"]:
             assumed.add(a)
+        nat = r.get("native")
+        if nat is not None:
+            natives[fn] = nat
+            bounded_results.append({"name": fn, "kind": "bounded-native", "status": nat.get("status"), "cases": nat.get("cases", 0),
+                                    "skipped_by_requires": nat.get("skipped_by_requires", 0),
+                                    "bound": "random small inputs (<= 400 cases, small value pools), real code under CPython"})
         if r["status"] == "crash":
             crashed.append(f"{fn}: {r['message'][:1500]}")
             continue
         if r["status"] == "unsupported":
+            if nat is not None and nat.get("status") == "violation":
+                for v in nat["violations"][:1]:
+                    if (fn, v["clause"]) in known_ob or (fn, "frame/p:" + v["clause"][6:]) in known_ob:
+                        expected_refuted.append({"function": fn, "obligation": v["clause"], "finding": known_ob.get((fn, v["clause"]), {}).get("id")})
+                        continue
+                    violations.append((fn, v["clause"], {"model": None, "where": r["file"], "text": v.get("text"), "bounded": True,
+                                                        "native": v}))
             undecided.append(f"{fn}: unsupported: {r['message'][:300]}")
             continue
         if not r["obligations"]:
@@ -200,6 +228,16 @@ def run_property(pid, tier="quick", seed=0, update_ledger=False, verbose=False):
                 refuted_names.setdefault(o["name"], o)
             else:
                 undecided.append(f"{fn}/{o['name']}: solver unknown/timeout")
+        if nat is not None and nat.get("status") == "violation" and not refuted_names:
+            # the bounded native run found a failing input although every obligation was discharged
+            for v in nat["violations"][:3]:
+                key = (fn, v["clause"])
+                key2 = (fn, "frame/p:" + v["clause"][6:]) if v["clause"].startswith("frame/") else key
+                if key in known_ob or key2 in known_ob:
+                    k = known_ob.get(key) or known_ob.get(key2)
+                    expected_refuted.append({"function": fn, "obligation": v["clause"], "finding": k["id"]})
+                    continue
+                violations.append((fn, v["clause"], {"model": None, "where": r["file"], "text": v.get("text"), "bounded": True, "native": v}))
         for nm, o in refuted_names.items():
             in_ledger = ledger is not None and nm in ledger.get("functions", {}).get(fn, [])
             if not in_ledger and not update_ledger:
@@ -237,12 +275,16 @@ def run_property(pid, tier="quick", seed=0, update_ledger=False, verbose=False):
         suffix = " no-failing-input-found"
         try:
             from .replay import try_replay
-            rr = try_replay(pid, fn, nm, o)
+            if o.get("native") is not None:
+                rr = {"replayed": True, "reproduced": True, "failing_input": o["native"].get("input"), "native_detail": o["native"].get("detail"),
+                      "native_clause": o["native"].get("clause")}
+            else:
+                rr = try_replay(pid, fn, nm, o, natives.get(fn))
             if rr is not None:
                 replay.update(rr)
                 if rr.get("replayed") and rr.get("reproduced"):
                     suffix = ""
-                elif rr.get("replayed") and rr.get("reproduced") is False:
+                elif rr.get("replayed") and rr.get("reproduced") is False:  # (never produced by the bounded search)
                     undecided.append(f"{fn}/{nm}: counter-model is not reproduced by the real code (engine imprecision)")
                     with open(rp, "w") as f:
                         json.dump(replay, f, indent=1)
